@@ -382,6 +382,32 @@ def check_total(rep, binary, strings, kind, cname):
             rep.violation(panic_sig("serial", res["serial_panic"]), f"serial() of {s[:200]!r} panicked: {res['serial_panic']}", replay)
 
 
+def check_total_tables(rep, binary, strings, rng, cname):
+    """the table (configuration file) forms with hostile values: parsing the table and asking the serial of whatever
+    came out may fail with an error, never with a panic"""
+    lines, texts = [], []
+    for x in strings:
+        q = json.dumps(x)  # a JSON string is a valid TOML basic string
+        port = rng.choice([0, 1, 80, 4003, 65535, 65536, -1, 99999])
+        form = rng.choice([f'websocket = {q}\n', f'websocket = {{ url = {q} }}\n', f'websocket = {{ url = {q}, jump = {q} }}\n', f'tcp = {q}\n',
+                           f'tcp = {{ address = {q}, port = {port} }}\n', f'tcp = {{ address = {q}, port = {port}, jump = {q} }}\n', f'udp = {q}\n', f'rtlsdr = {q}\n',
+                           f'tcp = {q}\nname = {q}\n', f'udp = {q}\nairport = {q}\n', f'websocket = {q}\nlatitude = 91.5\nlongitude = -181.0\n'])
+        lines.append({"toml": form})
+        texts.append(form)
+    log = drive(binary, "source", lines, timeout=3600)
+    if len(log) != len(lines):
+        raise Inconclusive("source driver dropped lines")
+    for t, res in zip(texts, log):
+        rep.evaluations += 1
+        rep.hashes.add(hash(("toml-hostile", t)))
+        rep.cls(f"{cname}:{res['result']}")
+        replay = {"mode": "source", "line": {"toml": t}}
+        if res["result"] == "panic":
+            rep.violation(panic_sig("toml", res.get("panic")), f"table {t[:200]!r} panicked: {res.get('panic')}", replay)
+        elif res.get("serial_panic"):
+            rep.violation(panic_sig("serial", res["serial_panic"]), f"serial() of the source read from table {t[:200]!r} panicked: {res['serial_panic']}", replay)
+
+
 def check_positions(rep, binary, rng, airports, fields, count):
     cases = []
     for _ in range(count):
@@ -487,6 +513,8 @@ def worker(args):
         muts.append(s)
     check_total(rep, binary, muts, "source", "mutated-random")
     check_total(rep, binary, [random_string(rng) for _ in range(150 * scale)], "source", "random")
+    # the same hostile material as values of the configuration-file forms
+    check_total_tables(rep, binary, fixed + muts[:200 * scale] + [random_string(rng) for _ in range(40 * scale)] + ["localhost:9876/1234", "9876/1234", "", "ws://", "unix:/tmp/x", "ws://host:99999/x", "host", ":1"], rng, "table-hostile")
     check_total(rep, binary, [random_string(rng) for _ in range(40 * scale)], "pos", "position-random")
     import os
     work = os.path.join(os.path.dirname(os.path.dirname(os.path.dirname(binary))), "tmp", f"cli16_{shard}")
@@ -496,7 +524,7 @@ def worker(args):
                            "source argument (after --): a usage error or a running process is fine, an abort while parsing is a violation")
     rep.extra["mandatory"] = ["cli:usage-error(exit 2)", "wellformed:tcp", "wellformed:udp", "wellformed:ws", "wellformed:rtlsdr", "wellformed:short",
                               "toml:tcp", "toml:udp", "toml:websocket", "toml:rtlsdr", "position:airport", "position:latlon",
-                              "mutated-fixed", "mutated-random", "random", "position-hostile", "serial-compared:string-vs-table",
+                              "mutated-fixed", "mutated-random", "random", "table-hostile:ok", "table-hostile:err", "position-hostile", "serial-compared:string-vs-table",
                               "serial-compared:two-processes", "serial-compared:asked-again-in-the-same-process", "serial-compared:same-endpoint-two-cases", "order-compared:two-processes-two-orders"]
     return rep.to_dict()
 
